@@ -307,6 +307,54 @@ class Ref(object):
                % (f.brief(), reasons))
 
   # -- operations --------------------------------------------------------
+  def op_reconnect(self, st):
+    """the control connection is lost (closed or reset by the controller's
+    side) and the switch's worker connects again through its real back-off
+    timer; table, counters and held packets are the switch's and stay.
+    What is removed while nobody is connected is reported to nobody."""
+    sim = self.sim
+    w = self.world
+    self.sync()
+    n = len(w.accepts)
+    if st.get("how") == "reset":
+      w.ctl.inject_reset()
+      if w.ctl.peer is not None:
+        w.ctl.peer.inject_reset()
+    else:
+      w.ctl.close()
+    sim.drain()
+    for _ in range(160):
+      sim.advance(0.25)
+      if len(w.accepts) > n:
+        break
+    else:
+      raise S.SimAbort("harness", "switch did not reconnect within 40 s")
+    got = w.hello()
+    if not got or got[0]["type"] != W.HELLO:
+      raise S.SimAbort("harness", "no hello from the switch after it "
+                       "reconnected")
+    self.async_in = []
+    self.sort_msgs()
+    now = sim.now
+    impl = self.probe_table()
+    for vc, det in self.model.reconcile(set(impl), now, self.last_sync):
+      self.dev("C04", vc, det)
+    # removals in the gap: a notification may have reached the new
+    # connection (if the sweep came after it was up) or nobody
+    pend = self.model.pending_removed
+    self.model.pending_removed = []
+    for d in self.take_async(W.FLOW_REMOVED):
+      key = (M.ckey(M.canon_of(d["match"])), d["priority"])
+      hit = [i for i, (f, _, _, _) in enumerate(pend) if f.key == key]
+      if not hit:
+        self.dev("C04", "flow-removed/unexpected", "after the reconnect: "
+                 "flow_removed (reason %d) for prio=%d which no removal "
+                 "accounts for" % (d["reason"], d["priority"]))
+      else:
+        pend.pop(hit[0])
+    self.last_sync = now
+    sim.probes["control_reconnected"] += 1
+
   def op_flow_mod(self, st):
     sim = self.sim
     self.sync()
@@ -708,7 +756,8 @@ class Ref(object):
     mdl.rx[port][0] += 1
     mdl.rx[port][1] += len(raw)
     ps = self.world.switch.port_stats.get(port)
-    if ps is not None and not self.table_reinjected and \
+    if self.scope == "C12" and ps is not None \
+        and not self.table_reinjected and \
         (ps.rx_packets, ps.rx_bytes) != tuple(mdl.rx[port]):
       # (before looking at what the table did with it: a frame the port
       # accepted is a frame received)
